@@ -636,7 +636,26 @@ func (tr *Tr) evalQuant(env *CEnv, q *CQuant) (Value, types.Type) {
 				panic(subsetErr("trigger must be scalar"))
 			}
 		}
-		pat += " :pattern (" + strings.Join(ps, " ") + ")"
+		// a usable pattern consists of applications that together mention every bound variable
+		okPat := true
+		for _, t := range ps {
+			if !strings.HasPrefix(t, "(") || strings.HasPrefix(t, "(ite ") || strings.HasPrefix(t, "(= ") || strings.HasPrefix(t, "(+ ") || strings.HasPrefix(t, "(- ") {
+				okPat = false
+			}
+		}
+		for _, d := range decls {
+			v := strings.Fields(strings.Trim(d, "()"))[0]
+			found := false
+			for _, t := range ps {
+				if strings.Contains(t, v) {
+					found = true
+				}
+			}
+			okPat = okPat && found
+		}
+		if okPat {
+			pat += " :pattern (" + strings.Join(ps, " ") + ")"
+		}
 	}
 	tr.fresh++
 	qid := fmt.Sprintf(" :qid Q%d_%s", tr.fresh, q.Binders[0].Name)
